@@ -25,6 +25,8 @@ EXTS = ["sql", "ddl", "hql", "bql"]
 DECOY_EXTS = ["txt", "json", "md", "sqlx", "bak"]
 SNIPPETS = ["-- résumé of the table ü\n", "-- plain ascii comment\n", "", "", "-- naïve £ sign\n"]
 STEMS = ["a", "tbl", "my_table", "x1", "Data", "orders", "t-1", "q_2"]
+# a stale output file that is *longer* than any result, so that an in-place overwrite without truncation leaves a tail behind
+STALE = json.dumps({"stale": True, "padding": "x" * 20000})
 TARGETS = ["missing", "nested", "existing", "stale", "relative"]
 
 
@@ -177,7 +179,7 @@ class C19(Prop):
             if tkind == "stale":
                 for c in candidates(case["fname"]):
                     with open(os.path.join(target, c), "w") as f:
-                        f.write('{"stale": true}')
+                        f.write(STALE)
             before = listing(root)
             import simple_ddl_parser
 
@@ -224,7 +226,7 @@ class C19(Prop):
                 written = []
                 for f in expected:
                     p = os.path.join(root, f)
-                    if os.path.exists(p) and open(p).read() != '{"stale": true}':
+                    if os.path.exists(p) and open(p).read() != STALE:
                         written.append(f)
                 stray = [f for f in new if f not in expected]
             else:
@@ -291,7 +293,7 @@ class C19(Prop):
             if tkind == "stale":
                 for f in case["files"]:
                     with open(os.path.join(target, f["name"].split(".")[0] + "_schema.json"), "w") as fh:
-                        fh.write('{"stale": true}')
+                        fh.write(STALE)
             before = listing(root)
             path = src if case["dir_mode"] else os.path.join(src, case["files"][0]["name"])
             argv = self.argv(case, path, target)
@@ -344,11 +346,15 @@ class C19(Prop):
             else:
                 for nm in names:
                     cands = {os.path.join(tdir, c) for c in candidates(nm)}
-                    hit = [f for f in after if f in cands and (f in new or open(os.path.join(root, f)).read() != '{"stale": true}')]
+                    hit = [f for f in after if f in cands and (f in new or open(os.path.join(root, f)).read() != STALE)]
                     if len(hit) != 1:
                         out.fail("cli-dump-missing", "input %r: expected one of %r, found %r (new files %r); argv %r" % (nm, sorted(cands), hit, new, argv[1:]))
                         continue
-                    content = json.load(open(os.path.join(root, hit[0])))
+                    try:
+                        content = json.load(open(os.path.join(root, hit[0])))
+                    except ValueError as e:
+                        out.fail("cli-dump-not-json", "%s is not valid JSON (%s); argv %r" % (hit[0], e, argv[1:]))
+                        continue
                     if content != jsonable(refs[nm][1]):
                         out.fail("cli-dump-content", "input %r with argv %r: %s holds %r, the API returns %r" % (nm, argv[1:], hit[0], content, refs[nm][1]))
                 allowed = {os.path.join(tdir, c) for nm in names for c in candidates(nm)}
